@@ -204,6 +204,46 @@ def run(rep, tier):
                "still carries it (the rollback cannot reclaim it; recovery registers both documents)" % name,
                g.file + ":%d" % (g.term(early[0]).get("ln", g.line) if early else g.line))
 
+    # ------------------------------------------------------------------ R04.8 a value is claimed before the write that needs it
+    rep.rule("R04.8", "the document write of an add / update (create / PUT of the document object) runs only behind the forward index pass that claims "
+             "its unique values, and not on the paths where that pass was refused: a write ahead of the claim makes a duplicate durable before the "
+             "index had its say", floor=2)
+    for name, wrx in (("add_impl", r"^anda_db::storage::Storage::(create|put|put_bytes)$"), ("update_impl", r"^anda_db::storage::Storage::(put|put_bytes)$")):
+        g = prog.fn(anda.COLL + "::" + name)
+        from .c01 import path_class as _pc8
+        wr = [e for e in g.calls_named(wrx) if "fn:doc_path" in _pc8(prog, g, e)]
+        err_t = set()
+        for (sb, place, adt, m, els) in g.variant_edges():
+            if adt in ("core::result::Result", "core::ops::control_flow::ControlFlow"):
+                t = m.get("Err", m.get("Break"))
+                if t is not None:
+                    err_t.add(t)
+        fwd_sites, rb_sites = [], []
+        for ce in g.creates():
+            c = prog.fns.get(ce.cid)
+            if c is None:
+                continue
+            ops = _c02.fam_ops(prog, [c] + prog.closures_of(c), fams_).get("btree_indexes", ())
+            if not any(op in ("insert", "update", "batch_update") for (op, _) in ops):
+                continue
+            sites = [e for e in g.calls() if c.id in prog.callee_nodes(e)]
+            if sites and all(any(g.dominates(t, e.block) for t in err_t) for e in sites):
+                rb_sites += sites
+            else:
+                fwd_sites += sites
+        if not fwd_sites:     # the forward pass is written inline
+            own = _c02.fam_ops(prog, [g], fams_).get("btree_indexes", ())
+            fwd_sites = [e for (op, e) in own if op in ("insert", "update", "batch_update") and e.kind == "call" and e.fn is g
+                         and not any(g.dominates(t, e.block) for t in err_t)]
+        if not wr or not fwd_sites:
+            raise CheckerFault("anchor missing: document write / forward index pass of %s" % name)
+        claims_first = all(any(g.dominates(fs.block, w.block) and fs.block != w.block for fs in fwd_sites) for w in wr)
+        refused_writes = [w for w in wr for r_ in rb_sites if g.dominates(r_.block, w.block)]
+        rep.ob("R04.8", "claimed-before-write|%s" % name, claims_first and not refused_writes,
+               "%s reaches its document write without having run the forward index pass (or behind the rollback of a refused pass): the unique values of the "
+               "new content are not claimed when the object becomes durable - a concurrent or later writer of the same value is accepted too, and after a "
+               "crash both documents are live" % name, wr[0].where())
+
     # ------------------------------------------------------------------ R04.4 unique first
     rep.rule("R04.4", "unique B-tree indexes are placed at the front of the family (evaluated first): push only on the not-unique edge", floor=2)
     for fname in ("load_indexes", "create_btree_index"):
